@@ -65,7 +65,7 @@ def real_extent(obj, text):
         return None
 
 
-def sample_strings(comp, sem, rnd, count, maxlen=14):
+def sample_strings(comp, sem, rnd, count, maxlen=14, mutate=True):
     """random walks through the Cons automaton (accepted marked words, marks dropped) + mutations + random strings"""
     C = sem.cons
     out = []
@@ -96,22 +96,22 @@ def sample_strings(comp, sem, rnd, count, maxlen=14):
             q = row[sym]
         t = ''.join(s)
         out.append(t)
-        if t:
+        if t and mutate:
             i = rnd.randrange(len(t))
             out.append(t[:i] + t[i + 1:])
             out.append(t[:i] + rnd.choice(alphabet) + t[i:])
             out.append(t[:i] + rnd.choice(alphabet) + t[i + 1:])
-    for _ in range(count // 4):
+    for _ in range(count // 4 if mutate else 0):
         out.append(''.join(rnd.choice(alphabet) for _ in range(rnd.randint(0, 6))))
     return out
 
 
-def compare(comp, g, sem, rnd, count):
+def compare(comp, g, sem, rnd, count, mutate=True):
     """-> (cases, list of disagreements)"""
     bad = []
     n = 0
-    for t in sample_strings(comp, sem, rnd, count):
-        if '\t' in t:
+    for t in sample_strings(comp, sem, rnd, count, mutate=mutate):
+        if '\t' in t and not hasattr(comp.alg, 'KN'):
             continue
         n += 1
         mine = run_extent(comp, sem, t)
